@@ -2,6 +2,7 @@
 import re
 THEOREMS_TIED = ["Rustic.Props.C03.every_prefix_consistent", "Rustic.Props.C03.publish_protocol_safe",
                  "Rustic.Props.C03.prune_protocol_safe", "Rustic.Props.C03.prune_protocol_safe_all_options", "Rustic.Props.C03.prune_full_protocol_safe", "Rustic.Props.C03.pruneOpsFull_in_phase_language", "Rustic.Props.C03.monitor_sound",
+                 "Rustic.Props.C03.replace_protocol_loses_no_snapshot", "Rustic.Props.C03.loss_monitor_sound",
                  "Rustic.Props.C03.index_lists_only_written_packs", "Rustic.Props.C03.failed_op_reports_error"]
 
 TRUSTED = [
@@ -13,6 +14,8 @@ TRUSTED = [
     "trace abstraction in harness/src/c03.rs: backend log of MemBackend -> abstract ops (index files decoded with the key through Repository::stream_files, "
     "snapshot closures by Repository::ls on the union of the stores before and after)",
     "MemBackend fault injection (crash_at / fail_only) of harness/src/repo.rs",
+    "succession of snapshots (harness/src/c03.rs Succession / replacement_token): the successor of a snapshot is the new snapshot of the complete run that "
+    "names it in `original` (fallback: carries its time); a snapshot gone at the end of the complete run WITHOUT successor counts as removed on purpose",
 ]
 ASSUMPTIONS = [
     "single-store repositories (hot/cold interruption belongs to C16); instant-delete + early-delete-index excluded (documented unsafe; theorems prune_early_delete_index_unsafe, prune_flag_table)",
@@ -26,10 +29,14 @@ RULE = ("one op line per (command, seed): commands backup, forget, prune (non-in
         "pack sizes; plus `c03 big`: a backup of more than MAX_COUNT (50 000) tiny blobs so that the indexer auto-saves an index file mid-run, faults on the pack "
         "writes / index write around the auto-save, oracles: every listed pack exists, check(read_data), retry of the backup is clean and reads back. The trace (embedded at generation time from a real run) is judged by the Lean monitor at EVERY prefix; "
         "exec re-runs the real command with crash_at=k and fail_only=k (quick: ~12 sampled k incl. first/last; thorough: every k) and checks the stored state "
-        "with check(read_data) + read-back of every visible snapshot. Non-trivial = trace with at least 2 operations.")
+        "with check(read_data) + read-back of every visible snapshot + 'no previously existing snapshot is lost' (every snapshot of the pre-state that the complete run "
+        "keeps or replaces is present as itself or as a snapshot with its successor's content; every k from the first snapshot write/removal on is a crash and a fault point "
+        "also in quick). Non-trivial = trace with at least 2 operations.")
 EXPLANATION = ("Theorems: operation lemmas (writePack always; writeIndex iff listed packs stored; writeSnapshot iff closure indexed; removeIndex/removePack "
                "under coverage premises); every prefix of a step-wise safe run is consistent; protocol theorems for backup/copy/merge/rewrite/repair-snapshots "
-               "(packs -> index -> snapshots -> removals), forget, config/key, prune (writes -> old index files -> old packs, for every covered combination of instant_delete x early_delete_index: pruneOpsOpt models the "
+               "(packs -> index -> snapshots -> removals), replace_protocol_loses_no_snapshot (rewrite --forget / repair snapshots --delete: new snapshot files, then removal of "
+               "the replaced ones: after every prefix every snapshot that existed is stored as itself or as its successor; remove_before_save_loses_snapshot: the reverse order "
+               "is consistent at every prefix but loses a snapshot - seen by the loss monitor firstLost, loss_monitor_sound), forget, config/key, prune (writes -> old index files -> old packs, for every covered combination of instant_delete x early_delete_index: pruneOpsOpt models the "
                "two conditions of prune_repository, early_delete_index alone is the safe order); negative results with witnesses "
                "(repair-snapshots order before the fix, repair-index --read-all, early-delete-index, index-before-pack); a failed op stops the sequential protocol in a "
                "prefix state; on the packer/file-writer/indexer actor model, for every schedule (interleaving of all stages of all writers and choice of failing "
@@ -59,4 +66,5 @@ def finding_key(op, impl, model):
 
 def is_property_failure(op, impl, model):
     # a crash/fault state that fails check or read-back, or a trace with an inconsistent prefix, is a failing input
-    return impl.startswith(("oracle-fail", "panic")) or model.startswith("bad:prefix")
+    # … and so is a trace with a prefix that has lost a snapshot (neither itself nor its successor stored)
+    return impl.startswith(("oracle-fail", "panic")) or model.startswith(("bad:prefix", "bad:lost"))
